@@ -320,11 +320,11 @@ func findIterCond(info *types.Info, cond ast.Expr, name string) types.Object {
 }
 
 type loopCtx struct {
-	c    *Ctx
-	info *types.Info
-	fd   *ast.FuncDecl
-	g    *FG
-	env  *symEnv
+	c            *Ctx
+	info         *types.Info
+	fd           *ast.FuncDecl
+	g            *FG
+	env          *symEnv
 	condOverride map[*ast.ForStmt]ast.Expr
 }
 
